@@ -299,8 +299,10 @@ fn one_record_index<const PADOK: bool>() {
     let cnt = t.u8() & 0x7F;
     let u = t.u8() & 0x7F;
     let v = t.u8() & 0x7F;
-    let ru = t.u8() as u64;
-    let rv = t.u8() as u64;
+    // the decoded block's sizes are arbitrary 64-bit values (the index bytes below stay
+    // one-byte multibyte integers, so only values < 128 can match)
+    let ru = t.u64();
+    let rv = t.u64();
     // PADOK = true: fields symbolic, CRC32 field computed by the harness (always right);
     // PADOK = false: fields pinned to the record, CRC32 field symbolic. (Both symbolic at once
     // asks the solver to invert a table-driven CRC: 34 M clauses, out of memory at 8 GB.)
@@ -422,7 +424,7 @@ pub fn xzblk_header_f20_p3() {
 
 
 //@ harness props=C03,C06,C07 tier=quick unwind=10 unwindset=default_read_exact:4,update_table:6 mem_gb=12 timeout=900 opt_covers=index_crc_rejected
-//@ bound: check_index directly with one record (symbolic sizes < 256): count / unpadded / uncompressed bytes (< 0x80) symbolic, CRC32 recomputed
+//@ bound: check_index directly with one record (symbolic 64-bit sizes): count / unpadded / uncompressed bytes (< 0x80) symbolic, CRC32 recomputed
 #[cfg_attr(kani, kani::proof)]
 #[cfg_attr(kani, kani::stub(std::fmt::format, crate::verif_common::stub_format))]
 #[cfg_attr(kani, kani::stub(std::io::Error::is_interrupted, crate::verif_common::stub_not_interrupted))]
@@ -1369,4 +1371,32 @@ pub fn xz_stream_glue_b1() {
 #[cfg_attr(kani, kani::stub(crate::decode::xz::check_index, crate::decode::xz::verif_h::scripted_check_index))]
 pub fn xz_stream_glue_b2() {
     xz_stream_glue::<2>()
+}
+
+
+//@ harness props=C13,C03,C06 tier=quick unwind=12 unwindset=default_read_exact:10,FragReader.*4read:5,update_table:6,update_slice16:6 mem_gb=8 timeout=900
+//@ bound: validate_block_check(CRC64 and CRC32) on 1 symbolic data byte with the check field delivered in symbolic fragments of 1..3 bytes: same verdict as from a whole-buffer reader
+#[cfg_attr(kani, kani::proof)]
+#[cfg_attr(kani, kani::stub(std::fmt::format, crate::verif_common::stub_format))]
+#[cfg_attr(kani, kani::stub(std::io::Error::is_interrupted, crate::verif_common::stub_not_interrupted))]
+pub fn xzblk_check_fragmented() {
+    let mut t = Tape::<32>::new();
+    let data = [t.u8()];
+    let field: [u8; 8] = t.bytes::<8>();
+    let cuts: [u8; 8] = t.bytes::<8>();
+    let use64 = t.bool();
+    let mut whole = ArrReader::<8>::new(field, 8);
+    let mut frag = FragReader::<8, 8>::new(field, 8, cuts, 3);
+    let m = if use64 { CheckMethod::Crc64 } else { CheckMethod::Crc32 };
+    let a = validate_block_check(&mut whole, &data[..], m);
+    let b = validate_block_check(&mut frag, &data[..], m);
+    let (oa, ob) = (a.is_ok(), b.is_ok());
+    forget(a);
+    forget(b);
+    vassert!(oa == ob, "block check: verdict independent of how the reader fragments the check field");
+    vassert!(whole.pos == frag.pos, "block check: same number of bytes consumed under every fragmentation");
+    let want = if use64 { u64::from_le_bytes(field) == ref_crc64(&data[..]) } else { u32::from_le_bytes([field[0], field[1], field[2], field[3]]) == ref_crc32(&data[..]) };
+    vassert!(ob == want, "block check: accepted iff the field is the checksum of the data, under every fragmentation");
+    vcover!(ob && use64, "crc64_ok_fragmented");
+    vcover!(!ob, "rejected");
 }
